@@ -140,7 +140,9 @@ def rule_c18(ob, clause, wit):
   xk, btok = rest.split("_bias-")
   r = []
   if clause == "preact_fits":
-    if wtok.startswith("po2"):
+    if wtok.startswith("po2-mvv"):
+      r.append(("C18-po2-top", "sum >= pow2(LGN + w_emax + x_int)"))
+    elif wtok.startswith("po2"):
       r.append(("C18-po2-top", "Or(sum >= pow2(LGN + w_emax + x_int), And(x_bits == 1, x_int == 1, sum >= pow2(LGN + w_emax)))"))
     elif wtok == "qbits":
       r.append(("C18-top-code-overflow", "sum >= pow2(LGN + w_int + x_int)"))
